@@ -894,11 +894,11 @@ class CombinedMultiDict(ImmutableMultiDictMixin[K, V], MultiDict[K, V]):  # type
             rv.extend(d.getlist(key, type))  # type: ignore[arg-type]
         return rv
 
-    def _keys_impl(self) -> set[K]:
+    def _keys_impl(self) -> cabc.KeysView[K]:
         """This function exists so __len__ can be implemented more efficiently,
         saving one list creation from an iterator.
         """
-        return set(k for d in self.dicts for k in d)
+        return dict.fromkeys(k for d in self.dicts for k in d).keys()
 
     def keys(self) -> cabc.Iterable[K]:  # type: ignore[override]
         return self._keys_impl()
